@@ -225,13 +225,14 @@ theorem loop_mirror_commands :
 /-- `MirrorLoops` extends `Mirror`: each of the 96 `Mirror` commands satisfies it -/
 theorem mirror_loops_extends : commands.all (fun c => !Mirror c || MirrorLoops c) = true := by decide +kernel
 
-/-- **What is still outside the fragment predicates**: exactly these 5 commands satisfy neither; NegotiateRequest has its own
-    theorem with the same statement (`negotiate_request_roundtrip`, Props/C04/Direct.lean), WriteRequest is proved never to
-    decode (`write_request_never_decodes`), so only NegotiateResponse rests on the correspondence runs alone.  Two carry the recorded structural finding (`known_roundtrip_findings`:
-    a 43-byte window for 53-byte entries); NegotiateRequest decodes `Dialects`, which reads to the end of its input
-    and is not among the lawful nested types; NegotiateResponse writes and reads two null-terminated strings
-    (literal terminator bytes, `rawDataContent` re-sliced); WriteRequest puts its buffer ahead of the parameter block
-    and never decodes its own encoding (`write_request_never_decodes`, a recorded finding). -/
+/-- **What is still outside the fragment predicates**: exactly these 5 commands satisfy neither.  NegotiateRequest
+    (`Dialects` reads to the end of its input and is not among the lawful nested types) and WriteRequest (`Data` decoded
+    with error and count dropped behind a guard the type does not size, `offset` then moved by `c.Data.Length`; its
+    Marshal was repaired, fixes/C04-writerequest-data-block.diff) each have their own theorem with the statement of
+    `mirror_loops_roundtrip`: `negotiate_request_roundtrip`, `write_request_roundtrip` (Props/C04/Direct.lean).  Two
+    carry the recorded structural finding (`known_roundtrip_findings`: a 43-byte window for 53-byte entries);
+    NegotiateResponse writes and reads two null-terminated strings (literal terminator bytes, `rawDataContent`
+    re-sliced) and alone rests on the correspondence runs without a finding. -/
 theorem non_mirror_loops_commands :
     (commands.filter (fun c => !MirrorLoops c)).map (·.name) =
       ["FindResponse", "FindUniqueResponse", "NegotiateRequest", "NegotiateResponse",
